@@ -35,7 +35,7 @@ func VerifLex(r io.Reader) ([]VerifToken, error) {
 
 // VerifExpandFor runs the scan / FOR-expansion pass loop of CompileWarrior and
 // returns the token stream handed to the parser.
-func VerifExpandFor(r io.Reader) ([]VerifToken, error) {
+func VerifExpandFor(r io.Reader, config SimulatorConfig) ([]VerifToken, error) {
 	tokens, err := LexInput(r)
 	if err != nil {
 		return nil, err
@@ -49,6 +49,7 @@ func VerifExpandFor(r io.Reader) ([]VerifToken, error) {
 		if !forSeen {
 			break
 		}
+		loadConstants(symbols, config)
 		expanded, err := ForExpand(newBufTokenReader(tokens), symbols)
 		if err != nil {
 			return nil, err
